@@ -160,6 +160,7 @@ func Transform(pkgs []*packages.Package, excluded func(filename string) bool) *R
 	in.normalizeRangeInt(pkgs, excluded)
 	in.normalizeLibraryLoops(pkgs, excluded)
 	in.normalizeLiteralRange(pkgs, excluded)
+	in.normalizePointerStructs(pkgs, excluded)
 	in.normalizeLocalStructs(pkgs, excluded)
 	in.findClosures(pkgs, excluded)
 	for _, pk := range pkgs {
